@@ -25,6 +25,48 @@ func wrongLit(t hs.Type) hs.Expr {
 	}
 }
 
+// simple: the expression contains no block-like construct, so its static type cannot silently
+// become `never` (a diverging operand would make a mismatch vanish).
+func simple(e hs.Expr) bool {
+	switch e := e.(type) {
+	case hs.IntLit, hs.FloatLit, hs.BoolLit, hs.StrLit, hs.Ident, hs.NullLit, hs.NoneLit:
+		return true
+	case hs.Paren:
+		return simple(e.X)
+	case hs.Prefix:
+		return simple(e.X)
+	case hs.Infix:
+		return simple(e.L) && simple(e.R)
+	case hs.Index:
+		return simple(e.X) && simple(e.I)
+	case hs.Member:
+		return simple(e.X)
+	case hs.Cast:
+		return simple(e.X)
+	case hs.Call:
+		if id, ok := e.Fn.(hs.Ident); ok && id.Name == "throw" {
+			return false
+		}
+		if !simple(e.Fn) {
+			return false
+		}
+		for _, a := range e.Args {
+			if !simple(a) {
+				return false
+			}
+		}
+		return true
+	case hs.ListLit:
+		for _, a := range e.Elems {
+			if !simple(a) {
+				return false
+			}
+		}
+		return true
+	}
+	return false
+}
+
 type siteWalker struct {
 	sites []Site
 	ctx   []string
@@ -115,7 +157,7 @@ func (w *siteWalker) expr(get func() hs.Expr, set func(hs.Expr)) {
 	case hs.Infix:
 		// the right operand gets a type different from the left one: always a mismatch
 		lt := e.L.Type()
-		if lt.IsScalar() && lt.K != hs.KNull && lt.K != hs.KRange {
+		if lt.IsScalar() && lt.K != hs.KNull && lt.K != hs.KRange && simple(e.L) {
 			w.add("operand-mismatch:"+e.Op, get, set, hs.Infix{Op: e.Op, L: e.L, R: wrongLit(lt), T: e.T})
 		}
 		w.expr(func() hs.Expr { return get().(hs.Infix).L }, func(n hs.Expr) { x := get().(hs.Infix); x.L = n; set(x) })
@@ -149,11 +191,11 @@ func (w *siteWalker) expr(get func() hs.Expr, set func(hs.Expr)) {
 			})
 		}
 	case hs.Index:
-		if e.X.Type().K == hs.KList {
+		if e.X.Type().K == hs.KList && simple(e.X) {
 			w.add("index-non-int", get, set, hs.Index{X: e.X, I: hs.StrLit{V: "k"}, T: e.T})
 		}
 	case hs.ListLit:
-		if len(e.Elems) > 0 && e.T.Elem.IsScalar() && e.T.Elem.K != hs.KRange {
+		if len(e.Elems) > 0 && e.T.Elem.IsScalar() && e.T.Elem.K != hs.KRange && simple(e) {
 			el := append([]hs.Expr{}, e.Elems...)
 			el = append(el, wrongLit(*e.T.Elem))
 			w.add("list-literal-mixed", get, set, hs.ListLit{Elems: el, T: e.T})
@@ -165,7 +207,7 @@ func (w *siteWalker) expr(get func() hs.Expr, set func(hs.Expr)) {
 	case *hs.If:
 		w.add("condition-if", func() hs.Expr { return e.Cond }, func(n hs.Expr) { e.Cond = n }, hs.IntLit{V: 1})
 		if e.T.IsScalar() && e.T.K != hs.KNull && e.T.K != hs.KRange && e.Else != nil {
-			if eb, ok := e.Else.(*hs.Block); ok && eb.Tail != nil {
+			if eb, ok := e.Else.(*hs.Block); ok && eb.Tail != nil && len(e.Then.Stmts) == 0 && e.Then.Tail != nil && simple(e.Then.Tail) {
 				w.add("branch-mismatch-if", func() hs.Expr { return eb.Tail }, func(n hs.Expr) { eb.Tail = n }, wrongLit(e.T))
 			}
 		}
@@ -176,7 +218,7 @@ func (w *siteWalker) expr(get func() hs.Expr, set func(hs.Expr)) {
 		}
 		w.pop()
 	case *hs.Match:
-		if e.T.IsScalar() && e.T.K != hs.KNull && e.T.K != hs.KRange && len(e.Arms) >= 2 {
+		if e.T.IsScalar() && e.T.K != hs.KNull && e.T.K != hs.KRange && len(e.Arms) >= 2 && simple(e.Arms[0].Body) {
 			last := len(e.Arms) - 1
 			w.add("branch-mismatch-match", func() hs.Expr { return e.Arms[last].Body }, func(n hs.Expr) { e.Arms[last].Body = n }, wrongLit(e.T))
 		}
